@@ -1250,8 +1250,6 @@ class Interp(StmtMixin):
                 s = self.read_field(st1, it, it.ty[1], "keys")
             else:
                 s = self.seq_of(st1, it)
-            if g.ifs:
-                raise Unsupported("filtered comprehension over symbolic sequence")
             i = bound_var("ci", I)
             n = z3.Length(s.t)
             s2 = st1.assume(z3.And(i >= 0, i < n))
@@ -1265,6 +1263,20 @@ class Interp(StmtMixin):
                     s2.env[nm.id] = Val(dt.accessor(0, j)(elem.t), elem.ty[1][j])
             else:
                 raise Unsupported("comprehension target")
+            keep = None
+            if g.ifs:
+                # filter conditions: pure, non-raising, non-forking tests of the element (evaluated like specification expressions)
+                parts = []
+                self.spec_mode += 1
+                try:
+                    for c in g.ifs:
+                        res = list(self.ev(c, s2))
+                        if len(res) != 1 or isinstance(res[0][1], Raise):
+                            raise Unsupported("filter condition of a comprehension forks or raises")
+                        parts.append(self.truthy(res[0][1], res[0][0]))
+                finally:
+                    self.spec_mode -= 1
+                keep = z3.And(*parts)
             outcome = None
             for kind_, sy, payload in self.indexed_eval(st1, i, n, s2, [e.elt], getattr(e, "lineno", None)):
                 if kind_ == "raise":
@@ -1280,9 +1292,25 @@ class Interp(StmtMixin):
                 body = Val(dt.constructor(0)(*[x.t for x in body.py]), ("tuple", tys))
             rty = ("seq", body.ty)
             r = fresh_const("comp", sort_of(rty))
-            s3 = s3.assume(z3.Length(r) == n)
             rng = z3.And(i >= 0, i < n)
-            s3 = s3.assume(z3.ForAll([i], z3.Implies(rng, r[i] == body.t), patterns=[r[i]]))
+            if keep is None:
+                s3 = s3.assume(z3.Length(r) == n)
+                s3 = s3.assume(z3.ForAll([i], z3.Implies(rng, r[i] == body.t), patterns=[r[i]]))
+            else:
+                # the kept elements, in order: an increasing map pos from result positions to source positions whose range is exactly the
+                # positions that pass the filter (inv is its inverse on those)
+                m = z3.Length(r)
+                pos = z3.Function(core_fresh_name("fpos"), I, I)
+                inv = z3.Function(core_fresh_name("finv"), I, I)
+                j, j2 = bound_var("fj", I), bound_var("fk", I)
+                at = lambda t, x: z3.substitute(t, (i, x))
+                s3 = s3.assume(z3.And(m >= 0, m <= n))
+                s3 = s3.assume(z3.ForAll([j], z3.Implies(z3.And(j >= 0, j < m),
+                                                          z3.And(pos(j) >= 0, pos(j) < n, at(keep, pos(j)), r[j] == at(body.t, pos(j)), inv(pos(j)) == j)),
+                                         patterns=[r[j]]))
+                s3 = s3.assume(z3.ForAll([j, j2], z3.Implies(z3.And(j >= 0, j < j2, j2 < m), pos(j) < pos(j2))))
+                s3 = s3.assume(z3.ForAll([i], z3.Implies(z3.And(rng, keep), z3.And(inv(i) >= 0, inv(i) < m, pos(inv(i)) == i, r[inv(i)] == body.t)),
+                                         patterns=[inv(i)]))
             scls = f"set_{body.ty[1]}" if kind == "set" and is_ref(body.ty) else None
             if scls in models.CLASSES and not self.spec_mode:
                 # a set of objects is a fresh heap object (it can be mutated later): members in an arbitrary order, duplicates possible
